@@ -434,7 +434,9 @@ def plan (e : Env) (enc : Bytes → Bytes) : Op → Plan
     withPath (getBucketPath e b) [] fun p => .ok [rd p, ⟨.list, .subtree p⟩, ⟨.read, .subtree p⟩]
   | .getObject b k =>
     withPath (getObjectPath e b k) [] fun p =>
-    let t1 := [rd p]
+    -- 391a940: when the file cannot be opened the bucket directory is probed (`not_found_error`)
+    withPath (getBucketPath e b) [rd p] fun bp =>
+    let t1 := [rd p, rd bp]
     withPath (metadataPath e enc b k none) t1 fun m =>
     let t2 := t1 ++ [rd m]
     withPath (internalInfoPath e enc b k) t2 fun i => .ok (t2 ++ [rd i])
@@ -451,7 +453,9 @@ def plan (e : Env) (enc : Bytes → Bytes) : Op → Plan
     if ap then .fail [] .notImplemented else
     withPath (getObjectPath e sb sk) [] fun src =>
     withPath (getObjectPath e b k) [] fun dst =>
-    let t1 := [rd src]
+    -- 391a940: when the source does not exist its bucket directory is probed (`not_found_error`)
+    withPath (getBucketPath e sb) [rd src] fun sbp =>
+    let t1 := [rd src, rd sbp]
     withPath (getBucketPath e b) t1 fun bp =>
     let t2 := t1 ++ [rd bp, ⟨.create, .dirChain (parentPath dst)⟩, cr dst, wr dst]
     withPath (metadataPath e enc sb sk none) t2 fun sm =>
@@ -502,7 +506,9 @@ def plan (e : Env) (enc : Bytes → Bytes) : Op → Plan
       if ap then .fail t1 .notImplemented else
       withPath (getObjectPath e sb sk) t1 fun src =>
       withPath (uploadPartPath e u part) t1 fun pp =>
-      let t2 := t1 ++ [rd src]
+      -- 391a940: when the source cannot be opened its bucket directory is probed (`not_found_error`)
+      withPath (getBucketPath e sb) (t1 ++ [rd src]) fun sbp =>
+      let t2 := t1 ++ [rd src] ++ [rd sbp]
       withPath (tmpPath e counter) t2 fun tmp => .ok (t2 ++ fileWrite tmp pp (parentPath pp))
   | .listParts _ _ uploadId =>
     .ok [⟨.list, .path e.root⟩, ⟨.read, .childrenPrefixed e.root (uploadPartPrefix uploadId)⟩]
